@@ -72,7 +72,7 @@ def finish(res, mod, a):
         path = runner.write_replay(pid, v)
         ok, text = runner.replay_subprocess(path)
         if not ok:
-            unreproduced.append((path, text))
+            unreproduced.append((path, text[-600:] + ("\n  original: " + str(v.get("detail"))[-1500:] if v["clause"] == "exception" else "")))
             continue
         kf = None
         for f in known:
